@@ -431,7 +431,7 @@ JOBFN = {'h_metrics': h_metrics, 'h_equity': h_equity}
 
 def _jobs(tier):
     jobs = []
-    opts = {'max_decisions': 6000, 'nlsat_fallback': True, 'prove_timeout_ms': 90000, 'feas_timeout_ms': 60000}
+    opts = {'max_decisions': 6000, 'nlsat_fallback': True, 'prove_timeout_ms': 90000, 'feas_timeout_ms': 60000, 'max_path_seconds': 300}
     # trade identities (no ratios) for 1..3 (4,5) trades; ratio identities with one trade and 2..4 (5) daily balances
     for nt in ((1, 2, 3) if tier == 'quick' else (1, 2, 3, 4, 5)):
         jobs.append(Job('metrics_t%d_b2' % nt, h_metrics, {'ntrades': nt, 'nbal': 2, 'symbal': 1, 'ratios': False}, dict(opts)))
@@ -460,7 +460,7 @@ def setup(tier, seed):
     jobs = _jobs(tier)
     return {
         'jobs': jobs,
-        'budget_s': 900 if tier == 'quick' else 3300,
+        'budget_s': 780 if tier == 'quick' else 3300,
         'explanation': 'the unmodified services.metrics.trades and ratio helpers run on real pandas with dtype=object columns: real ClosedTrade objects are '
                        'built from symbolic fills (side, qty, entry, exit), the daily balances are symbolic; z3 proves every identity of the statement against '
                        'direct folds over the same symbols (counts, win rate, net/gross profit, percentages, fee, largest/average win and loss, expectancy, '
